@@ -27,6 +27,15 @@ pub fn value() -> BoxedStrategy<Vec<u8>> {
         2 => vec(any::<u8>(), 1..6),
         1 => proptest::sample::select(INVALID_UTF8).prop_map(|b| b.to_vec()),
         1 => (proptest::sample::select(&[127u32, 128, 256][..]), any::<u8>()).prop_map(|(n, b)| vec![b; n as usize]),
+        // long VALID text whose multi-byte character sits on / next to a power-of-two block boundary (validity is a
+        // property of the whole value, however an implementation may chunk it)
+        1 => (proptest::sample::select(&[64usize, 256, 512, 1024, 2048, 4096, 8192, 16384, 65536][..]), 1usize..=3, 0usize..=4, proptest::sample::select(&["\u{e9}", "\u{20ac}", "\u{1f600}", "\u{10ffff}"][..]), gens::text(6))
+            .prop_map(|(block, m, back, ch, tail)| {
+                let mut v = vec![b'a'; block * m - back.min(block * m)];
+                v.extend_from_slice(ch.as_bytes());
+                v.extend_from_slice(tail.as_bytes());
+                v
+            }),
     ]
     .boxed()
 }
